@@ -177,6 +177,10 @@ func genC16(g *Gen, tier string, idx int) *wire.Scenario {
 			script = append(script, tok(g.Cat.ShortSeqFor(km, "macro-toggle-record"), "macro-toggle-record"), tok("a", "macro-register"))
 		}
 		cmd := "vi-delete" // the statement names delete-character (x) followed by put-before (P)
+		if g.P(25) && g.Cat.ShortSeqFor(km, "vi-rubout") != "" {
+			cmd = "vi-rubout" // ... and X is the same command looking the other way
+			script = append(script, tok("$", "vi-move"))
+		}
 		if g.P(30) {
 			script = append(script, tok(fmt.Sprint(g.Range(2, 4)), "vi-arg-digit"))
 		}
@@ -225,6 +229,12 @@ func genC16(g *Gen, tier string, idx int) *wire.Scenario {
 				script = append(script, tok(g.Cat.ShortSeqFor(km, "set-mark"), "set-mark"))
 				for i := 0; i < g.Range(1, 6); i++ {
 					script = append(script, tok(g.Cat.ShortSeqFor(km, Pick(g, []string{"backward-char", "forward-char", "backward-word", "forward-word"})), "move"))
+				}
+				// the region is made visible (and the point put at either end of it) by exchanging point and mark
+				for i := 0; i < g.N(3); i++ {
+					if seq := g.Cat.ShortSeqFor(km, "exchange-point-and-mark"); seq != "" {
+						script = append(script, tok(seq, "move"))
+					}
 				}
 			}
 			if g.P(30) {
